@@ -3,6 +3,7 @@
 package irdump
 
 import (
+	"reflect"
 	"fmt"
 	"go/types"
 	"sort"
@@ -243,3 +244,22 @@ func Dump(a *an.Analysis) *Env {
 	}
 	return env
 }
+
+// Roots is a dumper for type graphs that do not come with their Analysis (the types of extracted
+// endpoints): Ty registers the declarations reachable from a root.
+type Roots struct{ d *dumper }
+
+func NewRoots(pkgPath, pkgName string) *Roots {
+	env := &Env{PkgPath: pkgPath, PkgName: pkgName, Source: []*Ty{}, Decls: []*Decl{}, Conflicts: []Conflict{}, TypeKeys: []string{}}
+	return &Roots{d: &dumper{env: env, byQ: map[string]*Decl{}, nodes: map[string]an.Type{}, seen: map[an.Type]bool{}}}
+}
+
+// Ty dumps one root (nil for a nil type).
+func (r *Roots) Ty(t an.Type) *Ty {
+	if t == nil || reflect.ValueOf(t).IsNil() {
+		return nil
+	}
+	return r.d.ty(t)
+}
+
+func (r *Roots) Env() *Env { return r.d.env }
